@@ -35,6 +35,46 @@ pub fn model_status(code: u8) -> RadialStatus {
     }
 }
 
+/// Everything a radial reports through its accessors, folded into one number: a comparison that
+/// does not go through the library's own `PartialEq` (which a change might narrow) - header
+/// fields by bit pattern, and for each of the seven moments its presence and every gate value.
+pub fn radial_fingerprint(r: &Radial) -> u64 {
+    use crate::rng::mix;
+    use nexrad_model::data::MomentValue;
+    let mut h = mix(r.collection_timestamp() as u64, r.azimuth_number() as u64);
+    h = mix(h, r.azimuth_angle_degrees().to_bits() as u64);
+    h = mix(h, r.azimuth_spacing_degrees().to_bits() as u64);
+    h = mix(h, crate::rng::fnv_str(&format!("{:?}", r.radial_status())));
+    h = mix(h, r.elevation_number() as u64);
+    h = mix(h, r.elevation_angle_degrees().to_bits() as u64);
+    let moments = [
+        r.reflectivity(),
+        r.velocity(),
+        r.spectrum_width(),
+        r.differential_reflectivity(),
+        r.differential_phase(),
+        r.correlation_coefficient(),
+        r.specific_differential_phase(),
+    ];
+    for (k, m) in moments.iter().enumerate() {
+        match m {
+            None => h = mix(h, 0x4e4f_4e45 + k as u64),
+            Some(md) => {
+                let vals = md.values();
+                h = mix(h, 0x534f_4d45 + k as u64 + ((vals.len() as u64) << 8));
+                for v in vals {
+                    h = mix(h, match v {
+                        MomentValue::Value(x) => x.to_bits() as u64,
+                        MomentValue::BelowThreshold => 1 << 40,
+                        MomentValue::RangeFolded => 2 << 40,
+                    });
+                }
+            }
+        }
+    }
+    h
+}
+
 fn moment_of(m: &Msg31, slot: usize) -> Option<MomentData> {
     m.blocks.iter().find(|b| b.slot() == slot).and_then(|b| match b {
         Block::Mom(Moment {
